@@ -407,8 +407,44 @@ func init() {
 		Streams: []Stream{
 			{Name: "positions", N: func(c *Ctx) int { return tierN(c, 1500, 100000) }, Run: c11Positions},
 			{Name: "case-mapping", N: casedN, Run: c11CaseMap, Exhaustive: true},
+			{Name: "composition", N: func(c *Ctx) int { return tierN(c, 400, 20000) }, Run: c11Composition},
 			{Name: "order", N: func(c *Ctx) int { return tierN(c, 3000, 60000) }, Run: c11Order},
 			{Name: "rename", N: func(c *Ctx) int { return tierN(c, 20000, 4000000) }, Run: c11Rename},
 		},
 	})
+}
+
+// c11Composition: an operation applied to the result of another string operation within one
+// evaluation.  Go substrings share memory with their parent, so anything remembered about "this
+// string" by address (a code point count, an all-ASCII flag, an offset table) is wrong for a prefix
+// or suffix taken from it.  Subjects of 3000..20000 code points (so that they cross the 4 KiB / 16 KiB /
+// 64 KiB thresholds of such caches), mixed widths; the second operation uses length-relative
+// (negative) positions.
+func c11Composition(c *Ctx, idx int) {
+	r := c.Rand("")
+	n := gen.Pick(r, []int{100, 1500, 3000, 4096, 5000, 9000, 15000, 20000})
+	var b strings.Builder
+	pool := gen.Pick(r, [][]string{{"a", "é", "日", "𝌆", "b", "ï"}, {"a", "b", "c", "é"}, {"日", "本", "語"}, {"a", "b", "c", "d"}, {"𝌆", "a"}})
+	for i := 0; i < n; i++ {
+		b.WriteString(pool[r.Intn(len(pool))])
+	}
+	doc := ref.NewObj()
+	doc.Set("s", b.String())
+	goDoc := ref.ToGo(doc, ref.JSONNumber)
+	k := n/3 + r.Intn(n/2)
+	j := 1 + r.Intn(k-1)
+	forms := []string{
+		fmt.Sprintf("s[:%d][-3:]", k), fmt.Sprintf("s[:%d][:-3] | length(@)", k), fmt.Sprintf("length(s[:%d][:-1])", k), fmt.Sprintf("s[:%d] | [-3:]", k), fmt.Sprintf("let $p = s[:%d] in $p[-2:]", k),
+		fmt.Sprintf("[s, s[:%d], s[:%d]][*][-2:]", k, j), fmt.Sprintf("[s[-2:], s[:%d][-2:], s[:%d][-2:]]", k, j), fmt.Sprintf("s[%d:][:%d][-3:]", j, k-j), fmt.Sprintf("s[:%d][-5:-2]", k),
+		fmt.Sprintf("[length(s), length(s[:%d]), length(s[:%d]), length(s[%d:])]", k, j, j), fmt.Sprintf("reverse(s[:%d])[:3]", k), fmt.Sprintf("[s[::-1][:2], s[:%d][::-1][:2]]", k),
+		fmt.Sprintf("[find_last(s, 'a'), find_last(s[:%d], 'a'), find_last(s[:%d], 'a')]", k, j), fmt.Sprintf("[find_first(s, 'a', `-50`), find_first(s[:%d], 'a', `-50`)]", k),
+		fmt.Sprintf("pad_left(s[:%d], `%d`, '.')[:4]", j, j+3), fmt.Sprintf("[s[:%d] < s, s[:%d] == s[:%d], s[:%d] == s[:%d]]", k, k, k, k, j), fmt.Sprintf("split(s[:%d], '')[-2:]", k),
+		fmt.Sprintf("[s[:%d], s][*].[length(@), @[-1:]]", k), fmt.Sprintf("s[:%d][-1:] == s[%d:%d]", k, k-1, k), fmt.Sprintf("[upper(s[:%d])[-2:], lower(s)[-2:]]", k),
+	}
+	for _, f := range forms {
+		m, _ := c.CheckModel("C11", f, doc, goDoc, CheckOpts{Features: map[string]string{"stream": "composition", "code_points": fmt.Sprint(n)}})
+		if !m.Unspec {
+			c.Nontrivial(f, fmt.Sprint(idx))
+		}
+	}
 }
